@@ -206,3 +206,18 @@ pub fn context_violation(n: &Node, ctx: Ctx, top_level: bool) -> Option<String> 
     }
     None
 }
+
+
+/// Bare descriptors: only the standard templates pk, pkh and multisig with at most 3 keys.
+pub fn bare_template_violation(n: &Node) -> Option<String> {
+    let ok = match n {
+        Node::Check(x) => matches!(**x, Node::PkK(_) | Node::PkH(_) | Node::RawPkH(_)),
+        Node::Multi(_, ks) | Node::SortedMulti(_, ks) => ks.len() <= 3,
+        _ => false,
+    };
+    if ok {
+        None
+    } else {
+        Some("non-standard-bare".into())
+    }
+}
